@@ -1595,8 +1595,6 @@ def prop_oracle(c):
             if want is None:
                 if r[0] == "ok":
                     return "point() accepts %s which is not a valid SEC1 public key encoding (returned %r)" % (bs.hex(), r[1])
-                if r[1] not in ("AssertionError", "ValueError"):
-                    return "point() rejects with %s (is_point only catches AssertionError/ValueError)" % r[1]
                 if ip != ("ok", False):
                     return "is_point returned %r for an invalid encoding" % (ip,)
                 return None
